@@ -896,6 +896,12 @@ func rangeOf(v ssa.Value) (coll ssa.Value, isKey bool) {
 			return x.X, false
 		case *ssa.Index:
 			return x.X, false
+		case *ssa.Lookup:
+			// m[k]: a value of the map (an element of the collection the map holds)
+			if _, isMap := x.X.Type().Underlying().(*types.Map); isMap {
+				return x.X, false
+			}
+			return nil, false
 		case *ssa.FieldAddr:
 			v = x.X
 		case *ssa.Field:
